@@ -1244,6 +1244,11 @@ func main() {
 			if hd != nil {
 				hb = hd.Body
 			}
+			{
+				dw := t.funcDecl("DialWebsocket")
+				e.strs("bridgeDialCallees", calleesIn(dw), dw != nil, []string{"websocket.DefaultDialer.DialContext", "backendURL.String", "fmt.Errorf"},
+					"tcpbridge connection.DialWebsocket: what it calls (the frontend's set-up of a bridged connection is bounded by gorilla's DefaultDialer, whose HandshakeTimeout is 45 s: a websocket peer that never answers cannot hold the client's connection for ever)")
+			}
 			e.strs("bridgeBackendDefers", deferredCalls(hb), hd != nil, []string{"cancel()", "wsConn.Close()", "backendConn.Close()"}, "tcpbridge connection.Handler: deferred calls outside the goroutines, in source order (the websocket is closed on every return after the upgrade, also when the dial fails)")
 			if fp, err := loadPkg(*repo, "utils/tcpbridge/tcp-bridge-frontend"); err == nil {
 				mn := fp.funcDecl("main")
